@@ -9,7 +9,7 @@ META = {
                    "R2 budget provenance: limit = sysconf(_SC_ARG_MAX) - headroom(>= 2048) - sum over the environment of cost(name)+cost(value); the per-string cost is bytes+1 (shared cost-model rule); "
                    "R3 contract K1: the charge used by the *system* limiter carries a pointer-width term per string (execve charges strlen+1+sizeof(char*)); "
                    "R4 contract K1: some comparison of one argument's size with a MAX_ARG_STRLEN-class bound guards acceptance; "
-                   "R5 an argument refused by a fresh batch is reported as ArgumentTooLarge -> exit status 1 without reaching exec (process_input decision graph and exit table, clauses shared with C04/C19)",
+                   "R3 also: the limiter accounting and what is charged (C04.R1, R2, R4, imported); R5 an argument refused by a fresh batch is reported as ArgumentTooLarge -> exit status 1 without reaching exec (process_input decision graph and exit table, clauses shared with C04/C19)",
     "decides": "that the system budget is always in force, what it is computed from, which cost each argument and environment string is charged, and that an oversized single argument ends in exit status 1 before any exec",
     "does_not_decide": "the kernel's actual budget under a given RLIMIT_STACK (sysconf's value is trusted), the arithmetic for concrete lengths",
     "assumptions": ["Linux execve accounting as in fs/exec.c: strlen+1 per string plus one pointer per string, single string <= MAX_ARG_STRLEN (32 pages)"],
